@@ -23,7 +23,7 @@ import vlib
 
 LEVEL = "model_checking"
 
-ALL_BACKENDS = '{"memory", "localdisk", "diskpacked", "gate", "encrypt", "condgate"}'
+ALL_BACKENDS = '{"memory", "localdisk", "diskpacked", "gate", "encrypt", "condgate", "replicagate", "shardgate", "nsgate", "packedgate"}'
 
 
 def refclass(b):
@@ -191,7 +191,7 @@ def run(ctx, replay):
     quick = ctx.quick()
     ctx.specs()
     small = 41
-    big = '{"memory", "gate", "condgate"}' if quick else ALL_BACKENDS
+    big = '{"memory", "gate", "condgate", "replicagate"}' if quick else ALL_BACKENDS
     pre = ThreadPoolExecutor(max_workers=3)
     f_s1 = pre.submit(ctx.tlc_check, "Ingest", "Ingest.cfg", None, 4, 900, None, not quick)
     f_s2 = pre.submit(ctx.tlc_check, "Ingest", "Ingest.cfg", {"Deviations": '{"LimitTruncates"}'}, 2, 900, "OnlyAcceptableStored")
